@@ -236,7 +236,7 @@ def sort_clause(ctx, col):
         ("numbers are consecutive", ["new_id = new_id + 1", "new_id += 1"], "i:next"),
         ("old id -> old row position through a dict (ids need not be positions)", ["id2idx = dict(zip(old_ids, range(len(old_ids))))"], "i:id2idx"),
         ("new number -> old row position", ["indices = np.array([id2idx[i] for i in id_map], dtype=_any)"], "i:indices"),
-        ("new ids are 0..n-1", ["new_ids = np.arange(len(new_pids))"], "i:ids"),
+        ("new ids are 0..n-1", ["new_ids = np.arange(len(new_pids))", "new_ids = np.arange(len(id_map))", "new_ids = np.arange(len(old_ids))"], "i:ids"),
         ("both are returned", ["return (new_ids, new_pids), indices"], "i:ret")], fixed=("topology",))
     rd = repo.get_def(f"{IO}.read_swc")
     col.text_group("R-SORT", rd.qualname, rd, [
